@@ -6,6 +6,8 @@ import (
 	"berty.tech/go-orbit-db/stores/operation"
 	cid "github.com/ipfs/go-cid"
 	"sort"
+
+	"github.com/ipfs/boxo/path"
 )
 
 func cidsToStringers(cs []cid.Cid) []interface{ String() string } {
@@ -29,3 +31,5 @@ func toLogEntries(es []*entry.Entry) []ipfslog.Entry {
 func parseOp(e ipfslog.Entry) (operation.Operation, error) { return operation.ParseOperation(e) }
 
 func sortStrings(s []string) { sort.Strings(s) }
+
+type pathT = path.Path
